@@ -5,6 +5,7 @@
 import Driver.Sexp
 import BorshModel.Spec
 import BorshModel.SchemaOf
+import BorshModel.Io
 open Borsh Driver
 
 def strict? : Sx → Option Bool
@@ -51,6 +52,38 @@ def checkMaxAgainstSpec (c : Container) (implMax : String) : String :=
   | .missing d =>
     if implMax.startsWith "ok_" then "SPEC: definition " ++ hexOf d ++ " is missing but a bound was reported" else "ok"
 
+def nats? (xs : List Sx) : Option (List Nat) :=
+  xs.mapM fun x => match x with
+    | .atom a => a.toNat?
+    | _ => none
+
+def pairs? (xs : List Sx) : Option (List (Nat × Nat)) :=
+  xs.mapM fun x => match x with
+    | .list [.atom a, .atom b] => do some ((← a.toNat?), (← b.toNat?))
+    | _ => none
+
+def stop? : Sx → Option (Option (Nat × Stop))
+  | .atom "nostop" => some none
+  | .list [.atom "fail", .atom o, k, .atom id] => do
+    some (some ((← o.toNat?), .fail (← kind? k) (← id.toNat?)))
+  | .list [.atom "zero", .atom o] => do some (some ((← o.toNat?), .zero))
+  | _ => none
+
+def script? (cs st : Sx) : Option Script :=
+  match cs with
+  | .list (.atom "chunks" :: xs) => do some ⟨(← nats? xs), (← stop? st)⟩
+  | _ => none
+
+def intr? : Sx → Option (List (Nat × Nat))
+  | .list (.atom "intr" :: xs) => pairs? xs
+  | _ => none
+
+def showUnit (o : Out Unit) : String :=
+  match o with
+  | .ok () => "ok"
+  | .err e => showErr e
+  | .panic p => "panic " ++ showPanic p
+
 def runCase (xs : List Sx) : String :=
   match xs with
   | [.atom "enc", t, v] =>
@@ -94,6 +127,33 @@ def runCase (xs : List Sx) : String :=
         (fun r => "(" ++ " ".intercalate (r.1.map showVal) ++ ") rest=" ++ toString r.2.length)
         (deserializeMany st ts bs)
     | _, _, _ => "bad-case parse"
+  | [.atom "decR", st, t, b, cs, it, stp, .atom entry] =>
+    match strict? st, ty? t, bytes? b, script? cs stp, intr? it with
+    | some st, some t, some bs, some sc, some intr =>
+      let s0 : RState := ⟨bs, 0, intr⟩
+      let r := if entry == "dr" then deserializeReader (Rd.script sc) st t s0
+               else fromReader (Rd.script sc) st t s0
+      showOut (fun r => showVal r.1 ++ " pulled=" ++ toString r.2.pos) r
+    | _, _, _, _, _ => "bad-case parse"
+  | [.atom "encW", t, v, cs, it, stp] =>
+    match ty? t, val? v, script? cs stp, intr? it with
+    | some t, some v, some sc, some intr =>
+      if !HasTy t v then "bad-case ill-typed" else
+      let r := toWriterScript sc intr t v
+      showUnit r.2 ++ " delivered=" ++ hexOf r.1.delivered
+    | _, _, _, _ => "bad-case parse"
+  | [.atom "encF", t, v, .atom cap] =>
+    match ty? t, val? v, cap.toNat? with
+    | some t, some v, some cap =>
+      if !HasTy t v then "bad-case ill-typed" else
+      let r := toFixedBuffer cap t v
+      showUnit r.2 ++ " written=" ++ hexOf r.1.1 ++ " room=" ++ toString r.1.2
+    | _, _, _ => "bad-case parse"
+  | [.atom "olen", t, v] =>
+    match ty? t, val? v with
+    | some t, some v =>
+      if !HasTy t v then "bad-case ill-typed" else showOut toString (objectLength t v)
+    | _, _ => "bad-case parse"
   | [.atom "cont", st, b] =>
     match strict? st, bytes? b with
     | some st, some bs =>
